@@ -20,6 +20,7 @@ sys.path.insert(0, os.path.join(os.path.dirname(os.path.abspath(__file__)), ".."
 import vlib
 
 NEG = ["SinksCss_neg_semicolon.cfg", "SinksCss_neg_noguard.cfg", "SinksCss_neg_attr0.cfg"]
+NEG_RULE = "SinksCss_neg_kvraw.cfg"
 EXPECTED = ["SinksCss_mc_pinned_font.cfg", "SinksCss_mc_pinned_bg.cfg"]
 
 
@@ -83,7 +84,7 @@ def main():
     clist = cases.tagged("CASE")
     syms = cases.tagged("SYMS")
     toks = cases.tagged("TOKENS")
-    if len(clist) != cases.generated - 5 or not syms or not toks:
+    if len(clist) != cases.generated - 5 or not syms or not toks or sum(1 for c in clist if c["op"] == "argform") < 1000:
         raise vlib.InfraError("case emission incomplete: %d cases for %d states" % (len(clist), cases.generated))
     ck.add_tlc(cases, "SinksCss_cases MaxTok=%d" % maxtok)
     d = os.path.join(sc, "c05data")
@@ -137,12 +138,12 @@ def main():
         if line.startswith("{") and '"kind":"summary"' in line:
             s2 = json.loads(line)
     if p2.returncode != 0 or not s2 or s2["pred_mismatch"] < 1:
-        raise vlib.InfraError("binding self-test: a corrupted prediction was not reported by the harness")
+        infra("binding self-test: a corrupted prediction was not reported by the harness")
     val2 = vlib.tlc("MCTraceSinksCss", "trace.cfg", files={"trace.ndjson": open(os.path.join(d2, "trace.ndjson")).read(), "trace.cfg": tracecfg},
                     workers=1, timeout=600, xss="512m")
     v2 = val2.tagged("VAL")
     if len(v2) != 1 or not any(m["port"]["ev"] == "Corrupted" for m in v2[0]["mism"]):
-        raise vlib.InfraError("binding self-test: a corrupted logged verdict was not rejected by the trace spec")
+        infra("binding self-test: a corrupted logged verdict was not rejected by the trace spec")
     ck.set("binding_selftest", "corrupted prediction reported by harness; corrupted logged verdict rejected by TLC")
 
     # --- MC results ------------------------------------------------------------------------------------------------------
@@ -164,7 +165,10 @@ def main():
         r = j()
         if r.violated != "OneDeclaration":
             raise vlib.InfraError("negative config %s was not rejected (got %s)" % (n, r.violated))
-    ck.set("negative_configs_rejected", NEG)
+    r = vlib.tlc("MCSinksCss", NEG_RULE, workers=1, timeout=600)
+    if r.violated != "ArgRule":
+        raise vlib.InfraError("negative config %s was not rejected (got %s)" % (NEG_RULE, r.violated))
+    ck.set("negative_configs_rejected", NEG + [NEG_RULE])
 
     ck.set("traces_validated_against_impl", s["evaluations"])
     ck.set("evaluations", s["evaluations"])
